@@ -905,3 +905,11 @@ def wf_array_unfold(st, w):
             st.refine_chunk(c, ls + [body])
         st.assume(z3.And(sym.I(uint(ls)) == body.len, dec_array(w) == append_items(ws, EMPTY_LIST)))
     return c
+
+
+# ---------------------------------------------------------------- time values (assumed library facts A5; C15)
+dt_as_utc = z3.Function('dt_as_utc', Obj, Obj)                 # naive value with tzinfo=UTC attached
+dt_local_wall = z3.Function('dt_local_wall', Obj, z3.IntSort(), Obj)   # an instant shown as host-local wall clock
+dt_fields = z3.Function('dt_fields', Obj, Obj)                 # struct_time of the wall-clock fields
+dt_utcfields = z3.Function('dt_utcfields', Obj, Obj)           # struct_time of the UTC fields
+dt_utcoffset = z3.Function('dt_utcoffset', Obj, z3.IntSort())  # UTC offset (seconds) of an aware value
